@@ -50,6 +50,8 @@ SKIP = Skip()
 
 def import_bionumpy():
     sys.path.insert(0, str(REPO))
+    import logging
+    logging.disable(logging.WARNING)
     with contextlib.redirect_stderr(open(os.devnull, "w")):
         import bionumpy  # noqa
     f = Path(bionumpy.__file__).resolve()
